@@ -730,6 +730,8 @@ def gen_case(rnd, maxdepth):
             'mastersrc': rnd.choice(['seed', 'seed', 'seedhex', 'xprv', 'from_wif']),
             'pubsrc': rnd.choice(['public()', 'public()', 'xpub', 'from_wif']),
             'aslist': rnd.random() < 0.15, 'elems': _gen_elems(rnd, maxdepth)}
+    # every path goes through one private form (m/ or relative) and, for half of them, the M/ form; all split points always
+    case['forms'] = [rnd.choice(['m', 'm', ''])] + (['M'] if rnd.random() < 0.5 else [])
     r = rnd.random()
     if r < 0.06:      # feature: a plain number >= 2^31 as path element
         j = rnd.randrange(len(case['elems']))
@@ -796,7 +798,7 @@ def replay(case, col):
 def plan(tier, seed, scale=1.0):
     thorough = tier == 'thorough'
     nshard = 16
-    total = int((100000 if thorough else 2000) * scale)
+    total = int((60000 if thorough else 1200) * scale)
     return [{'part': 'paths', 'shard': i, 'nshard': nshard, 'n_paths': max(4, total // nshard),
              'maxdepth': 12 if thorough else 8, 'timeout': 4 * 3600 if thorough else 900} for i in range(nshard)]
 
